@@ -25,6 +25,9 @@ type Handler interface {
 
 type HandlerFunc func(msg Message) error
 
+// Serve calls f(msg).
+func (f HandlerFunc) Serve(msg Message) error { return f(msg) }
+
 type ServeMux struct {
 	m  []HandlerFunc
 	mu sync.RWMutex
